@@ -177,6 +177,11 @@ def insWeights (nested live : List (K × K)) : List K := (nested ++ live).map (f
 /-- `logZ = logsumexp(_weights) - log(_n)`, `_n = _weights.size` -/
 def insZ (w : List K) : K := Quad.sumL w / (w.length : K)
 
+/-- `compute_evidence_ratio(ns_only)` in the linear domain: the mean weight of the live points over the mean weight of the
+nested samples alone (`ns_only`, the `ratio_ns` criterion) or of all samples (the `ratio` criterion) -/
+def insRatio (nested live : List (K × K)) (nsOnly : Bool) : K :=
+  insZ (insWeights [] live) / (if nsOnly then insZ (insWeights nested []) else insZ (insWeights nested live))
+
 /-- `log_posterior_weights = _weights - logZ` -/
 def insPostW (w : List K) : List K := w.map (· / insZ w)
 
